@@ -70,6 +70,14 @@ def tests():
         "{ struct S *lps = 0; lps; }", "{ union U lu = { 1 }; lu; }", "{ union U lu = { .o = 1.0 }; lu; }", "{ union U lu = un; lu; }", "{ struct S la[2] = { { 1 }, { 2 } }; la; }", "{ struct { int x; } an = { 1 }; an.x; }",
         "e = K1;", "e = K2;", "e = e2;", "e == K1;", "e + 1;", "i = e;", "e = i;", "e = 1;", "K1 + K2;", "i = K2 * 2;", "switch (e) { case K1: break; case K2: break; }", "a[K1];", "{ enum E le = K2; le; }", "{ int li = K1; li; }", "e ? K1 : K2;", "(enum E)i;", "(int)e;",
     ]
+    # null pointer constants (6.3.2.3p3: an integer constant expression with the value 0) in every spelling, wherever a pointer is expected
+    null_stmts = []
+    for nc in ["0x0", "0L", "(0)", "0u", "00", "0UL", "((0))", "0ll", "0X00"]:
+        for cons in ["p = %s;", "fp1(%s);", "p == %s;", "%s != p;", "i ? %s : p;", "i ? p : %s;", "vp = %s;", "ps = %s;", "fp = %s;", "lk(\"k\", %s);", "g3p(%s, 1.0, %s);", "pc = %s;", "b = p == %s;"]:
+            null_stmts.append(cons.replace("%s", nc))
+    for nc in ["'\\0'", "1 - 1"]:                # these need the expression to be evaluated: recorded finding
+        for cons in ["p = %s;", "fp1(%s);"]:
+            null_stmts.append(cons.replace("%s", nc))
     call_stmts = [
         "f0();", "f1(1);", "f1(i);", "f1(c);", "f1(d);", "f1('a');", "f1(K1);", "f1(f0());", "f1(f1(1));", "g2(1, 2.0);", "g2(i, i);", "g2(c, f);", "fv(1);", "fv(1, 2);", "fv(1, 2.0, \"s\", p);", "fv(i, c, s, f);", "fvoid();", "fd(1);", "fd(f);", "fd(fd(d));",
         "fp1(p);", "fp1(a);", "fp1(&i);", "fp1(0);", "fp1(vp);", "fp1(tp);", "fp1(&st.m);", "fp1(st.arr);", "fvp(p);", "fvp(pc);", "fvp(vp);", "fvp(0);", "fvp(&st);", "fvp(ps);", "fvp(a);", "fvp(\"s\");", "fcc(pc);", "fcc(ccp);", "fcc(\"lit\");", "fcc(ca);", "fcc(0);",
@@ -87,7 +95,7 @@ def tests():
             "{ const int k = 1; i = k; }", "{ int k; k = i; (void)k; }", "{ _Static_assert(1, \"m\"); }", "{ int k[3]; k[0] = 1; }", "{ int n = 3; int vla[n]; vla[0] = 1; }", "{ char k = 'x'; int m = k; m; }", "{ unsigned k = 1; k << 2; }", "{ long long k = 1; k + 1; }",
             "{ float k = 1; k * 2; }", "{ double k = 1, m = 2; k / m; }", "{ int k = 1, *m = &k; *m; }", "{ int k = sizeof(int[3]); k; }", "i = ((i));", "i = (int)(char)(long)d;", "d = (double)(int)d;", "(void)0;", "(void)(i + 1);", "i = __func__[0];", "i = (int)sizeof(st);",
             "ti = ti + 1;", "ti++;", "ti = i;", "i = ti;", "ti << 1;", "ti % 2;", "tc = 'a';", "tc + 1;", "td = 1.5;", "td * 2;", "td = ti;", "{ T1 k = 1; T2 m = k; T3 n = m; n; }", "ti ? tc : td;", "a[ti];", "p + ti;", "f1(ti);", "{ T3 *ptx = &ti; *ptx; }", "p = &ti;", "{ T3 at[2]; at[0] = 1; }"]
-    for sgroup, name in ((ptr_stmts, "ptr"), (struct_stmts, "struct"), (call_stmts, "call"), (misc, "misc")):
+    for sgroup, name in ((ptr_stmts, "ptr"), (struct_stmts, "struct"), (call_stmts, "call"), (null_stmts, "null"), (misc, "misc")):
         for s in sgroup:
             out.append(("%s:%s" % (name, s), s))
     # ---- composition: every producer of a value class inside every consumer that needs that class (a wrong RESULT TYPE of an accepted
